@@ -6,38 +6,40 @@ from gen import opcodes
 
 def system_level(ctx, binary, projects, limit):
     base = ctx.mktemp()
-
-    import zlib
+    from . import c04
 
     def one(proj):
         d = programs.materialize(proj, base)
         e = proj["entry"]
-        # the path is spelled in three ways (plain, with a leading `./`, absolute): the same spelling in every step
-        how = zlib.crc32(proj["name"].encode()) % 3
-        sp = lambda dd, f: f if how == 0 else ("./" + f if how == 1 else os.path.join(dd, f))
-        r1 = programs.run_bin(binary, ["run", sp(d, e), "-q"], d)
+        # the path is spelled in three ways (plain, with a leading `./`, absolute); the bytecode file is the same file however
+        # its path is written, so the spelling used for `execute` varies independently of the one used for the earlier steps
+        how, how_x = c04.spelling_of(proj)
+        sp = c04.spell
+        r1 = programs.run_bin(binary, ["run", sp(how, d, e), "-q"], d)
         d2 = programs.materialize(proj, base)
-        c = programs.run_bin(binary, ["compile", sp(d2, e), "--quick", "--output-format", "raw-text"], d2)
-        r2 = t = None
+        c = programs.run_bin(binary, ["compile", sp(how, d2, e), "--quick", "--output-format", "raw-text"], d2)
+        r2 = t = same_spelling = None
         if c[0] == 0:
             stem = e[:-3]
             os.rename(os.path.join(d2, stem + ".mmm"), os.path.join(d2, stem + ".transpiled.mmm"))
-            t = programs.run_bin(binary, ["transpile", sp(d2, stem + ".transpiled.mmm")], d2)
+            t = programs.run_bin(binary, ["transpile", sp(how, d2, stem + ".transpiled.mmm")], d2)
             if t[0] == 0:
-                r2 = programs.run_bin(binary, ["execute", sp(d2, stem + ".mmm")], d2)
+                r2 = programs.run_bin(binary, ["execute", sp(how_x, d2, stem + ".mmm")], d2)
+                if how_x != how and r2[0] != 124 and (programs.exit_class(r2[0]) != programs.exit_class(r1[0]) or not programs.same_output(r1[1], r2[1], proj)):
+                    same_spelling = programs.run_bin(binary, ["execute", sp(how, d2, stem + ".mmm")], d2)
         if r2 is not None and not programs.same_output(r1[1], r2[1], proj):
             again = programs.run_bin(binary, ["run", e, "-q"], d)
             if not programs.same_output(r1[1], again[1], None):
                 r2 = (r2[0], r1[1], r2[2])
         shutil.rmtree(d, ignore_errors=True)
         shutil.rmtree(d2, ignore_errors=True)
-        return proj, r1, c, t, r2
+        return proj, r1, c, t, r2, same_spelling
 
-    from . import c04
-    single = c04.failing_and_colliding_programs() + [p for p in projects if len(p["files"]) == 1 and "import" not in list(p["files"].values())[0]]
-    res = programs.pmap(one, single[:limit])
-    n = 0
-    for proj, r1, c, t, r2 in res:
+    matrix = [p for p in c04.path_spelling_matrix() if len(p["files"]) == 1]
+    single = matrix + c04.failing_and_colliding_programs() + [p for p in projects if len(p["files"]) == 1 and "import" not in list(p["files"].values())[0]]
+    res = programs.pmap(one, single[:limit + len(matrix)])
+    n = n_mixed = 0
+    for proj, r1, c, t, r2, same_spelling in res:
         if c[0] != 0:
             continue
         n += 1
@@ -47,9 +49,96 @@ def system_level(ctx, binary, projects, limit):
             continue
         if 124 in (r1[0], r2[0]):
             continue
+        how, how_x = c04.spelling_of(proj)
+        n_mixed += how != how_x
         if not programs.same_output(r1[1], r2[1], proj) or programs.exit_class(r1[0]) != programs.exit_class(r2[0]):
+            if same_spelling is not None and programs.exit_class(same_spelling[0]) == programs.exit_class(r1[0]) and programs.same_output(r1[1], same_spelling[1], proj):
+                ctx.report("execute-path-spelling",
+                           "the transpiled bytecode of `%s` executes like `run` when started as `%s` but not as `%s`: %s" % (
+                               sp_name(how, proj["entry"]), sp_name(how, proj["entry"][:-3] + ".mmm"), sp_name(how_x, proj["entry"][:-3] + ".mmm"), proj["name"]),
+                           {"project": proj, "cwd": "the project directory <dir>", "compile_and_transpile_path": c04.SPELLINGS[how], "execute_path": c04.SPELLINGS[how_x],
+                            "run": {"rc": r1[0], "stdout": r1[1][-2000:]}, "pipeline": {"rc": r2[0], "stdout": r2[1][-2000:], "stderr": r2[2][-1000:]},
+                            "execute_spelled_like_the_other_steps": {"rc": same_spelling[0], "stdout": same_spelling[1][-2000:]}})
+                continue
             ctx.report("run-vs-pipeline:" + proj["name"], "run and raw-text->transpile->execute differ on %s" % proj["name"],
                        {"project": proj, "run": {"rc": r1[0], "stdout": r1[1][-2000:]}, "pipeline": {"rc": r2[0], "stdout": r2[1][-2000:], "stderr": r2[2][-1000:]}})
+    ctx.cov["programs_executed_under_another_path_spelling"] = n_mixed
+    return n
+
+
+def sp_name(how, f):
+    from . import c04
+    return c04.spell(how, "<dir>", f)
+
+
+# `mscript transpile PATH` takes the text form from PATH, which must end in `.transpiled.mmm`, and writes the binary form next to it
+# (PATH without `.transpiled`).  Stems for which `<stem>.mmm` -- the file `compile --output-format raw-text` writes -- is itself
+# a tail of `.transpiled.mmm`, upper-case variants, and the name that consists of the suffix alone:
+SUFFIX_STEMS = ["d", "ed", "led", "iled", "piled", "spiled", "nspiled", "anspiled", "ranspiled", "transpiled", "D", "Piled", "x", "transpile"]
+SUFFIX_PROGRAM = "s = \"a b\\tc\"\nprint s\nprint s.len()\nf = fn(n: int) -> int {\n  return n * 2\n}\nprint f(21)\n"
+
+
+def transpile_in_place(ctx, binary):
+    """`transpile` applied directly to the raw-text file the compiler wrote (no rename), and to a file named `.transpiled.mmm`:
+    when the command reports success, executing its output must behave like `run`; when it refuses, the text form must
+    still be there (nothing of the program may be lost either way)."""
+    base = ctx.mktemp()
+
+    def one(stem):
+        # bytecode names its own functions `<file as compiled>#f`: the copy that is transpiled under ANOTHER name (stem "x"
+        # below) must not refer to its own file, so that program has no functions
+        proj = {"name": "transpile-in-place:" + stem, "entry": stem + ".ms",
+                "files": {stem + ".ms": SUFFIX_PROGRAM if stem != "x" else SUFFIX_PROGRAM.split("f = fn")[0]}}
+        d = programs.materialize(proj, base)
+        r1 = programs.run_bin(binary, ["run", stem + ".ms", "-q"], d)
+        c = programs.run_bin(binary, ["compile", stem + ".ms", "--quick", "--output-format", "raw-text"], d)
+        res = []
+        if c[0] == 0:
+            text = open(os.path.join(d, stem + ".mmm"), "rb").read()
+            # (source path given to transpile, path of the binary form it derives)
+            targets = [(stem + ".mmm", stem + ".mmm")]
+            if stem == "x":
+                targets = [(".transpiled.mmm", ".mmm"), (".TRANSPILED.MMM", ".mmm")]
+            for src, out in targets:
+                if src != stem + ".mmm":
+                    shutil.copy(os.path.join(d, stem + ".mmm"), os.path.join(d, src))
+                t = programs.run_bin(binary, ["transpile", src], d)
+                after = open(os.path.join(d, src), "rb").read() if os.path.exists(os.path.join(d, src)) else None
+                x = None
+                if t[0] == 0:
+                    # success: the binary form is where the command says it is (the file named by the derived path, which
+                    # for these names may be the source path itself)
+                    import re
+                    m = re.search(r"bytes to (.+?)\s*$", t[1])
+                    cand = [p for p in ([m.group(1)] if m else []) + [out, src] if os.path.exists(os.path.join(d, p))]
+                    x = programs.run_bin(binary, ["execute", cand[0]], d) if cand else (127, "", "no output file")
+                res.append((src, t, after == text, x))
+                if src != stem + ".mmm":
+                    for p in os.listdir(d):
+                        if p not in (stem + ".ms", stem + ".mmm"):
+                            os.remove(os.path.join(d, p))
+        shutil.rmtree(d, ignore_errors=True)
+        return proj, r1, c, res
+
+    n = 0
+    for proj, r1, c, res in programs.pmap(one, SUFFIX_STEMS):
+        if c[0] != 0 or r1[0] != 0:
+            ctx.report("generator:rejected", "the fixed program of the transpile-in-place probe does not compile/run: %s" % (c[1] + c[2] + r1[2])[-300:], {"project": proj}, found_input=False)
+            continue
+        for src, t, intact, x in res:
+            n += 1
+            rep = {"project": proj, "how": "mscript compile %s --quick --output-format raw-text; %smscript transpile %s" % (
+                       proj["entry"], "" if src.endswith(proj["entry"][:-3] + ".mmm") else "cp %s.mmm %s; " % (proj["entry"][:-3], src), src),
+                   "transpile": {"rc": t[0], "stdout": t[1][-400:], "stderr": t[2][-400:]}, "source_intact_afterwards": intact,
+                   "run": {"rc": r1[0], "stdout": r1[1]}}
+            if t[0] == 0:
+                rep["execute"] = {"rc": x[0], "stdout": x[1][-400:], "stderr": x[2][-600:]}
+                if programs.exit_class(x[0]) != "ok" or x[1] != r1[1]:
+                    ctx.report("transpile-accepts-non-source-path",
+                               "`mscript transpile %s` reports success, but executing the result does not behave like `run` (exit %s; the text form it was given is %s)" % (
+                                   src, x[0], "intact" if intact else "gone"), rep)
+            elif not intact:
+                ctx.report("transpile-refusal-destroys-source", "`mscript transpile %s` fails (exit %s) and the text form is no longer what the compiler wrote" % (src, t[0]), rep)
     return n
 
 
@@ -100,6 +189,7 @@ def run(ctx):
     ctx.rng.shuffle(projects)
     n = system_level(ctx, binary, projects, 100 if ctx.quick() else len(projects))
     ctx.cov["programs_through_pipeline"] = n
+    ctx.cov["transpile_in_place_probes"] = transpile_in_place(ctx, binary)
     ctx.cov["traces_validated_against_impl"] = n
     ctx.cov["trusted_base"] = ["Coq 8.16.1 kernel (coqc; vm_compute for the finite opcode-table facts)", "no axioms (closed under the global context)",
                                "translator gen/opcodes.py (instruction_constants.rs -> Gen/OpcodeTable.v)",
